@@ -14,6 +14,7 @@ mod c05;
 mod c06;
 mod c07;
 mod c08;
+mod c09;
 mod c10;
 mod c11;
 mod c12;
@@ -82,6 +83,7 @@ fn main() {
         "C06" => c06::run(tier),
         "C07" => c07::run(tier),
         "C08" => c08::run(tier),
+        "C09" => c09::run(tier),
         "C10" => c10::run(tier),
         "C11" => c11::run(tier),
         "C12" => c12::run(tier),
@@ -116,6 +118,7 @@ fn main() {
         "C06" => c06::replay(&sub, &v["witness"]),
         "C07" => c07::replay(&sub, &v["witness"]),
         "C08" => c08::replay(&sub, &v["witness"]),
+        "C09" => c09::replay(&sub, &v["witness"]),
         "C10" => c10::replay(&sub, &v["witness"]),
         "C11" => c11::replay(&sub, &v["witness"]),
         "C12" => c12::replay(&sub, &v["witness"]),
